@@ -1,1 +1,2 @@
+import Cpppo.Props.C18
 import Cpppo.Props.C19
